@@ -1032,10 +1032,18 @@ def rule_table(ctx):
     rr.instances += 1
     fac = getattr(d, 'factory', None)
     good = False
-    if isinstance(fac, FuncV) and fac.fi.is_lambda and isinstance(
-            fac.fi.node.body, ast.Name):
-        r = ctx.cg.resolve_name_expr(fac.fi, fac.fi.node.body)
-        good = bool(r and r[0] == 'func' and r[1].name == 'not_implemented')
+    if isinstance(fac, FuncV) and not fac.fi.params:
+        # `lambda: not_implemented`, or a def whose whole body returns it
+        body = fac.fi.node.body
+        if not fac.fi.is_lambda:
+            stmts = [st for st in body if not (isinstance(
+                st, ast.Expr) and isinstance(st.value, ast.Constant))]
+            body = stmts[0].value if len(stmts) == 1 and isinstance(
+                stmts[0], ast.Return) else None
+        if isinstance(body, ast.Name):
+            r = ctx.cg.resolve_name_expr(fac.fi, body)
+            good = bool(r and r[0] == 'func' and
+                        r[1].name == 'not_implemented')
     if good:
         rr.ok('OPERATORS is a defaultdict of not_implemented', om.rel)
     else:
